@@ -104,12 +104,40 @@ def gen_cases(ctx):
             for k in range(9):
                 msgs[k] = {"src": rng.choice(senders), "level": net_ref.level(stall),
                            "len": rng.choice([4, 8, 24]), "type": 10 + k}
+        for b in busy:
+            # half of them the other way round: the multicast is the main step and the level
+            # member starts its (failing) unicast right after the multicast reached its radio,
+            # before its application has called update()
+            if rng.random() < 0.5:
+                b["reverse"] = True
+                b["delay"] = rng.choice([0.2, 0.5, 1, 2, 4])
+        prefail = []
+        if i % 6 == 1:
+            # a fragmented unicast that fails outright (absent sibling), then a multicast to the
+            # failed sender's level: the sender must be listening unacknowledged again
+            cands = []
+            for u in nodes:
+                if not u or str(u) in mlevel or u in mc_off:
+                    continue
+                par = net_ref.parent(u)
+                sh = 3 * (net_ref.level(u) - 1)
+                for c in range(1, 6):
+                    d = par | (c << sh)
+                    if d not in nodes and d != net_ref.DEFAULT_ADDR:
+                        cands.append((u, d))
+            for _ in range(2):
+                if cands:
+                    u, d = rng.choice(cands)
+                    others = [v for v in nodes if v != u and v not in mc_off]
+                    if others:
+                        prefail.append({"u": u, "d": d, "v": rng.choice(others), "ulen": rng.choice([30, 60, 10]),
+                                        "len": rng.choice([4, 8, 24])})
         lazy = [a for a in nodes if i % 4 == 3 and rng.random() < 0.5]
         if lazy:
             for ms in msgs:
                 ms["len"] = max(4, ms["len"])
         yield {"nodes": nodes, "relay": relay1, "mc_off": mc_off, "msgs": msgs, "lazy": lazy,
-               "mlevel": mlevel, "busy": busy, "stall": stall,
+               "mlevel": mlevel, "busy": busy, "stall": stall, "prefail": prefail,
                "profiles": {str(a): N.rand_profile(rng, base=base) for a in nodes},
                "seed": rng.getrandbits(30)}
 
@@ -175,10 +203,32 @@ def _run(ctx, case, net):
 
         def comp_fn(nn, ms=ms, payload=payload):
             return nn.obj.multicast(payload, ms["type"], ms["level"])
+        if b.get("reverse"):
+            comp = {"who": b["u"], "name": "send", "fn": main_fn, "delay_ms": b["delay"]}
+            holder = {"step": len(net.steps)}
+            net.steps.append({"who": b["v"], "name": "multicast", "fn": comp_fn, "deadline_ms": 4000,
+                              "gap": 12 * W.MS, "companion": comp})
+            companions.append((ms, payload, holder))
+            continue
         comp = {"who": b["v"], "name": "multicast", "fn": comp_fn, "delay_ms": b["delay"]}
         net.steps.append({"who": b["u"], "name": "send", "fn": main_fn, "deadline_ms": 4000,
                           "gap": 12 * W.MS, "companion": comp})
         companions.append((ms, payload, comp))
+    for b in case.get("prefail", []):
+        k = len(case["msgs"]) + len(companions) + 1
+        ms = {"src": b["v"], "level": level_of[b["u"]], "len": b["len"], "type": 11, "after_failed_unicast_of": b["u"]}
+        payload = msg_bytes(k, max(4, ms["len"]))
+        ms["len"] = len(payload)
+
+        def fail_fn(nn, b=b):
+            return nn.obj.send(Hdr(b["d"], 1), bytes(b["ulen"]))
+
+        def mc_fn(nn, ms=ms, payload=payload):
+            return nn.obj.multicast(payload, ms["type"], ms["level"])
+        net.steps.append({"who": b["u"], "name": "send", "fn": fail_fn, "deadline_ms": 6000, "gap": 12 * W.MS})
+        holder = {"step": len(net.steps)}
+        net.steps.append({"who": b["v"], "name": "multicast", "fn": mc_fn, "deadline_ms": 4000, "gap": 12 * W.MS})
+        companions.append((ms, payload, holder))
     if not net.run(wall_timeout=120):
         ctx.count("watchdog_inconclusive")
         return
@@ -189,6 +239,9 @@ def _run(ctx, case, net):
     # the concurrent multicasts are judged like the others (with their own records)
     extra_recs = []
     for ms, payload, comp in companions:
+        if "step" in comp:  # the multicast was a main step: its record is among the results
+            found = [r for r in net.results if r["i"] == comp["step"]]
+            comp = {"rec": found[0] if found else None}
         if comp.get("rec") is not None:
             r = dict(comp["rec"])
             r["i"] = len(case["msgs"]) + len(extra_recs)
@@ -304,7 +357,7 @@ def _run(ctx, case, net):
             # only "never more than one copy" is judged for it
             heard = {n for p in mine for n, o in p.outcomes if o.startswith("rx:")}
             bad = [a for a in members if copies.get(a, 0) > 1
-                   or (net.bykey[a].radio.name in heard and copies.get(a, 0) != 1)]
+                   or (net.bykey[a].radio.name in heard and copies.get(a, 0) != 1 and a != case.get("stall"))]
         else:
             # a node whose application does not read keeps at most max_queue_size frames: for it
             # only "never more than one copy" is judged (the bounded queue is C12's subject)
